@@ -10,6 +10,8 @@ R6 every loop over the input makes progress (consumes, moves its look-ahead offs
    over owned data)
 """
 from . import util, guards, cg, taint as T
+from . import absint as A
+from .facts import FactError
 from .cfg import cfg
 from .common import norm, family
 from .sym import sym, short, mentions, subexprs
@@ -484,6 +486,69 @@ def run_r6(ctx, rule):
         rule.bad("loops/floor", "only %d loops found in parser / tokenizer code (at least 40 expected)" % n, kind="anchor-missing")
 
 
+# ---- R7: a token that reports success has consumed something ----------------------------------------------
+class Moved(A.Auto):
+    """True once the cursor was advanced by a provably positive amount on this path"""
+
+    name = "cursor-moved"
+
+    def initial(self):
+        return False
+
+    def event(self, state, ev, where):
+        if ev[0] == "prim" and ev[1] == "advance":
+            n = ev[2][1] if len(ev[2]) > 1 else A.TOP
+            if (n[0] == "i" and n[1] >= 1) or (n[0] == "ge" and n[1] >= 1):
+                return True
+        return state
+
+
+# tokens whose success legitimately consumes nothing (frozen, one reason each)
+R7_EXEMPT = {
+    "eof": "matches the end of the input: there is nothing to consume, and the caller stops",
+    "interactive_end_of_line": "newline, or else the end of the input (the end alternative consumes nothing, and the caller stops)",
+}
+# keyword tokens advance by the length of the keyword they matched: positive when no keyword of the table is empty
+R7_KEYWORD = ("node_token", "sort_token")
+
+
+def run_r7(ctx, rule):
+    """the parsers' loops try token after token; they make progress because a token that matches has moved the cursor.
+    Decided per token function: on every path that returns Res(Ok) / Ok the cursor was advanced by a provably
+    positive amount (an offset tested `!= 0`, a constant, 1 + ..)."""
+    facts = ctx.facts
+    from .c08 import token_fns
+    from .c04 import shape_of
+    from . import scan
+    n = 0
+    for f in sorted(token_fns(facts), key=lambda x: x.id):
+        nid = norm(f.id)
+        ret = f.locals[0]
+        if ret.get("adt") != A.PARSED:
+            continue  # (tokens returning Result are `required_*` forms: failing is an error, not an alternative)
+        auto = Moved()
+        eng = A.Engine(facts, auto)
+        try:
+            res = eng.summary(scan.root_key(facts, f.id), False, tuple(A.TOP for _ in range(f.argc)))
+        except (A.Recursion, A.Imprecise, FactError) as e:
+            rule.bad("%s/engine" % nid, "analysis failed: %r" % e, f.loc(), kind="unmodelled-idiom")
+            continue
+        n += 1
+        idle = any((not st) and any(sh == "Res(Ok)" or sh == "Res(?)" for sh in shape_of(av)) for av, st in res)
+        short_name = nid.rsplit("::", 1)[-1]
+        if idle and short_name in R7_EXEMPT:
+            rule.ok("%s may match without consuming [exempt]" % short(nid), f.loc(), R7_EXEMPT[short_name])
+            continue
+        if idle and short_name in R7_KEYWORD:
+            from . import table
+            kws = [kw for kw, val, bb in table.str_match_table(facts, f)]
+            ok_kw = bool(kws) and all(len(kw) >= 1 for kw in kws)
+            rule.check(ok_kw, "%s/success-consumes" % nid, "%s advances by the length of the matched keyword; all %d keywords of its table are non-empty" % (short(nid), len(kws)), f.loc())
+            continue
+        rule.check(not idle, "%s/success-consumes" % nid, "%s reports a match only after the cursor moved by a provably positive amount (otherwise a loop over alternatives can spin)" % short(nid), f.loc())
+    rule.note("token_functions", n)
+
+
 def run(ctx):
     tn = T.Taint(ctx.facts)
     r1 = ctx.rule("C05-R1", "no recursion among the workspace's function instances (bounded stack)", floor=1)
@@ -494,6 +559,8 @@ def run(ctx):
     run_r5(ctx, r5, tn)
     r6 = ctx.rule("C05-R6", "every loop in parser / tokenizer code makes progress on every iteration", floor=40)
     run_r6(ctx, r6)
+    r7 = ctx.rule("C05-R7", "a token that reports a match has moved the cursor (loops over alternatives cannot spin)", floor=30)
+    run_r7(ctx, r7)
     from .c05b import run_r4
     r4 = ctx.rule("C05-R4", "panic-site inventory: every panic-capable construct in parser-reachable code is discharged or listed", floor=40)
     run_r4(ctx, r4, tn)
